@@ -200,7 +200,7 @@ func parseApp(s string) (App, bool) {
 		if f != 0 && f != 2 {
 			return App{}, false
 		}
-	} else if f > 5 {
+	} else if f > 5 || f == 1 {
 		return App{}, false
 	}
 	return App{n, t, f, l, m}, true
